@@ -331,11 +331,13 @@ type verifWorld struct {
 	abandoned cpuset.CPUSet
 	// idle CPUs that a refused AllocateResources removed from the shared idle CPUs of a balloon
 	unshared cpuset.CPUSet
+	// idle CPUs freed by the deletion of a balloon and not shared with the balloons in whose scope they are
+	unsharedDeleted cpuset.CPUSet
 }
 
 // verifNewPolicy sets the policy up like Setup (see the file comment) with
 // configuration cfg; the error is setConfig's.
-func verifNewPolicy(machine int, cfg *cfgapi.Config) (*verifWorld, error) {
+func verifNewPolicy(cfg *cfgapi.Config, machine int) (*verifWorld, error) {
 	sys, mnodes, ncpu := verifMachine(machine)
 	c := &verifCache{containers: map[string]*verifContainer{}, policy: map[string]interface{}{}}
 	p := &balloons{}
@@ -348,7 +350,7 @@ func verifNewPolicy(machine int, cfg *cfgapi.Config) (*verifWorld, error) {
 	}
 	p.memAllocator = ma
 	p.cpuTree = verifCpuTreeFromSystem(sys)
-	w := &verifWorld{p: p, cache: c, sys: sys, ncpu: ncpu, cfg: cfg, abandoned: cpuset.New(), unshared: cpuset.New()}
+	w := &verifWorld{p: p, cache: c, sys: sys, ncpu: ncpu, cfg: cfg, abandoned: cpuset.New(), unshared: cpuset.New(), unsharedDeleted: cpuset.New()}
 	return w, p.setConfig(cfg.DeepCopy())
 }
 
@@ -357,34 +359,76 @@ var verifShareLevels = []cfgapi.CPUTopologyLevel{
 	cfgapi.CPUTopologyLevelNuma, cfgapi.CPUTopologyLevelCore,
 }
 
+// verifProfile is one entry of the table of configurations used when the
+// "profiles" parameter is set (quick tier): machine, available cpuset and the
+// numbers of balloon type "a".
+type verifProfile struct {
+	machine                                    int
+	available                                  bool // availableResources cpuset:0-6 instead of all CPUs
+	minCpus, maxCpus, minBalloons, maxBalloons int
+	share                                      cfgapi.CPUTopologyLevel
+	preferNew, spreadPods, hideHT              bool
+}
+
+var verifProfiles = []verifProfile{
+	// pre-created fixed-size balloon sharing idle CPUs of its package
+	{machine: 0, minCpus: 2, maxCpus: 2, minBalloons: 1, maxBalloons: 0, share: cfgapi.CPUTopologyLevelPackage},
+	// purely dynamic type, nothing shared, 7 of 8 CPUs available
+	{machine: 0, available: true},
+	// up to two new-balloon-preferring instances of 1..2 CPUs, hidden hyperthreads, one kernel-isolated CPU
+	{machine: 2, minCpus: 1, maxCpus: 2, maxBalloons: 2, share: cfgapi.CPUTopologyLevelPackage, preferNew: true, hideHT: true},
+	// one pre-created single-CPU balloon sharing system-wide
+	{machine: 0, maxCpus: 1, minBalloons: 1, maxBalloons: 1, share: cfgapi.CPUTopologyLevelSystem},
+	// two pre-created balloons on a 2-NUMA-node package, sharing per NUMA node, pods spread
+	{machine: 1, minCpus: 1, minBalloons: 2, maxBalloons: 2, share: cfgapi.CPUTopologyLevelNuma, spreadPods: true},
+	// sharing per core, two kernel-isolated CPUs
+	{machine: 3, minCpus: 1, maxCpus: 3, minBalloons: 1, maxBalloons: 0, share: cfgapi.CPUTopologyLevelCore},
+}
+
 // verifConfig builds a configuration with the user balloon types "a" (chosen by
 // namespace ns-a or by annotation) and, if types >= 2, "b" (by annotation
-// only); the implicit reserved (kube-system) and default types are added by
-// the policy. The numbers of type "a" are solver-chosen within the per-tier
-// ranges; type "b" is fixed (1..2 CPUs, no pre-created instance, at most 1).
-func verifConfig() *cfgapi.Config {
+// only; 1..2 CPUs, no pre-created instance, at most one, sharing the idle CPUs
+// of its package); the implicit reserved (kube-system, reserved cpuset {0})
+// and default types are added by the policy. The numbers of type "a" are
+// solver-chosen: from the profile table if the parameter "profiles" is set,
+// otherwise every combination within the per-tier ranges. Returns the
+// configuration and the machine to run it on.
+func verifConfig() (*cfgapi.Config, int) {
 	cfg := &cfgapi.Config{
 		IdleCpuClass:      "idle",
 		ReservedResources: cfgapi.Constraints{cfgapi.CPU: "cpuset:0"},
 	}
-	if verifParam("available", 0) != 0 {
+	machine := verifParam("machine", 0)
+	a := &cfgapi.BalloonDef{Name: "a", CpuClass: "class-a", Namespaces: []string{"ns-a"}, AllocatorPriority: cfgapi.PriorityNormal}
+	available := verifParam("available", 0) != 0
+	if n := verifParam("profiles", 0); n > 0 {
+		pr := verifProfiles[verifParam("firstProfile", 0)+verifChoice("profile", n)]
+		machine, available = pr.machine, pr.available
+		a.MinCpus, a.MaxCpus, a.MinBalloons, a.MaxBalloons = pr.minCpus, pr.maxCpus, pr.minBalloons, pr.maxBalloons
+		a.ShareIdleCpusInSame, a.PreferNewBalloons, a.PreferSpreadingPods = pr.share, pr.preferNew, pr.spreadPods
+		if pr.hideHT {
+			hide := true
+			a.HideHyperthreads = &hide
+		}
+	} else {
+		a.MinCpus = verifChoice("a.minCpus", verifParam("minCpusN", 3))
+		a.MaxCpus = verifChoice("a.maxCpus", verifParam("maxCpusN", 3))
+		a.MinBalloons = verifChoice("a.minBalloons", verifParam("minBalloonsN", 2))
+		a.MaxBalloons = verifChoice("a.maxBalloons", verifParam("maxBalloonsN", 3))
+		a.ShareIdleCpusInSame = verifShareLevels[verifChoice("a.share", verifParam("shareLevels", 2))]
+		a.PreferNewBalloons = verifChoice("a.preferNew", verifParam("preferNewN", 1)) == 1
+		a.PreferSpreadingPods = verifChoice("a.spreadPods", verifParam("spreadPodsN", 1)) == 1
+	}
+	if available {
 		cfg.AvailableResources = cfgapi.Constraints{cfgapi.CPU: "cpuset:0-6"}
 	}
-	a := &cfgapi.BalloonDef{Name: "a", CpuClass: "class-a", Namespaces: []string{"ns-a"}, AllocatorPriority: cfgapi.PriorityNormal}
-	a.MinCpus = verifChoice("a.minCpus", verifParam("minCpusN", 3))
-	a.MaxCpus = verifChoice("a.maxCpus", verifParam("maxCpusN", 3))
-	a.MinBalloons = verifChoice("a.minBalloons", verifParam("minBalloonsN", 2))
-	a.MaxBalloons = verifChoice("a.maxBalloons", verifParam("maxBalloonsN", 3))
-	a.ShareIdleCpusInSame = verifShareLevels[verifChoice("a.share", verifParam("shareLevels", 2))]
-	a.PreferNewBalloons = verifChoice("a.preferNew", verifParam("preferNewN", 1)) == 1
-	a.PreferSpreadingPods = verifChoice("a.spreadPods", verifParam("spreadPodsN", 1)) == 1
 	cfg.BalloonDefs = append(cfg.BalloonDefs, a)
 	if verifParam("types", 2) >= 2 {
 		b := &cfgapi.BalloonDef{Name: "b", CpuClass: "class-b", MinCpus: 1, MaxCpus: 2, MaxBalloons: 1,
 			ShareIdleCpusInSame: verifShareLevels[verifParam("b.share", 1)], AllocatorPriority: cfgapi.PriorityNormal}
 		cfg.BalloonDefs = append(cfg.BalloonDefs, b)
 	}
-	return cfg
+	return cfg, machine
 }
 
 // container kinds: how the balloon type of a new container is selected
